@@ -478,6 +478,44 @@ func checkItCase(c itCase, rec *Rec) error {
 		rec.NonTrivial(true)
 		return drive(name, it.Next, func() any { return cp(it.Value()) }, toAny(want), true, true)
 	case "Product":
+		// astronomically large products cannot be enumerated: check that the first values are distinct members
+		big := 1.0
+		for _, v := range c.M {
+			if v < 1 {
+				big = 0
+				break
+			}
+			big *= float64(v)
+		}
+		if big > 1e6 {
+			rec.Label("huge-product-prefix-only")
+			rec.NonTrivial(true)
+			it := itertools.Product(cp(c.M)...)
+			seen := map[string]bool{}
+			for i := 0; i < 200; i++ {
+				var ok bool
+				if p := try(func() { ok = it.Next() }); p != nil {
+					return fmt.Errorf("Product(%v): Next call #%d panicked: %v", c.M, i+1, p)
+				}
+				if !ok {
+					return fmt.Errorf("Product(%v) reports exhaustion after %d values; the family has about %.3g members", c.M, i, big)
+				}
+				v := cp(it.Value())
+				if len(v) != len(c.M) {
+					return fmt.Errorf("Product(%v): value %v has the wrong length", c.M, v)
+				}
+				for j, x := range v {
+					if x < 0 || x >= c.M[j] {
+						return fmt.Errorf("Product(%v): value %v is outside the product", c.M, v)
+					}
+				}
+				if seen[fmt.Sprint(v)] {
+					return fmt.Errorf("Product(%v): value %v yielded twice", c.M, v)
+				}
+				seen[fmt.Sprint(v)] = true
+			}
+			return nil
+		}
 		want := allProducts(c.M)
 		rec.NonTrivial(true)
 		arg := cp(c.M)
@@ -699,6 +737,19 @@ func genItCase(t *rapid.T) itCase {
 	case "IntegerPartitions":
 		c.N = rapid.IntRange(0, sz(18, 30)).Draw(t, "n")
 	case "Product", "RestrictedPrefixProduct":
+		if c.Iter == "Product" && rapid.IntRange(0, 7).Draw(t, "huge") == 0 {
+			// products whose size does not fit a machine word: many small factors, or a few large powers of two
+			if rapid.Bool().Draw(t, "manysmall") {
+				for i := rapid.IntRange(30, 80).Draw(t, "nfactors"); i > 0; i-- {
+					c.M = append(c.M, rapid.SampledFrom([]int{1, 2, 2, 2, 3, 4}).Draw(t, "smallfactor"))
+				}
+			} else {
+				for i := rapid.IntRange(2, 5).Draw(t, "nfactors"); i > 0; i-- {
+					c.M = append(c.M, rapid.SampledFrom([]int{1 << 16, 1 << 31, 1 << 32, 1 << 62, 3037000500, 1000003}).Draw(t, "largefactor"))
+				}
+			}
+			return c
+		}
 		l := rapid.IntRange(0, 5).Draw(t, "len")
 		c.M = make([]int, l)
 		for i := range c.M {
